@@ -420,7 +420,8 @@ func cmdReplay(args []string) int {
 					}
 					for di, detour := range rn.detours(j.s, target) {
 						// Add;Pop (spare capacity) for every operation; the other round trips on a quarter of them
-						if !(detour[0].Op == "Add" && detour[1].Op == "Pop") && (i+di)%4 != 0 {
+						always := (detour[0].Op == "Add" && detour[1].Op == "Pop") || detour[0].Op == "Sort" || detour[0].Op == "Reverse" || detour[1].Op == "Sort"
+						if !always && (i+di)%4 != 0 {
 							continue
 						}
 						full := append(append([]model.Op{}, prefix...), detour...)
